@@ -83,6 +83,32 @@ func family(fam string, dec codec.Decoder) []Decoder {
 			t, err := invocation.FromIPLD(n)
 			return gi(t, u, err)
 		}},
+		// the way a router reads a token: look at the node first (Inspect, FindTag - read-only helpers), try the other
+		// type, then decode the SAME node object with the decoder the tag names
+		{"Inspect+FindTag+delegation.FromIPLD(" + fam + ")", fam, "dlg", false, func(r io.Reader) (token.Token, cid.Cid, error) {
+			n, err := node(r, dec)
+			if err != nil {
+				return nil, u, err
+			}
+			_, _ = token.Inspect(n)
+			_, _ = token.FindTag(n)
+			_, _ = invocation.FromIPLD(n)
+			_, _ = token.Inspect(n)
+			t, err := delegation.FromIPLD(n)
+			return gd(t, u, err)
+		}},
+		{"Inspect+FindTag+invocation.FromIPLD(" + fam + ")", fam, "inv", false, func(r io.Reader) (token.Token, cid.Cid, error) {
+			n, err := node(r, dec)
+			if err != nil {
+				return nil, u, err
+			}
+			_, _ = token.Inspect(n)
+			_, _ = token.FindTag(n)
+			_, _ = delegation.FromIPLD(n)
+			_, _ = token.Inspect(n)
+			t, err := invocation.FromIPLD(n)
+			return gi(t, u, err)
+		}},
 	}
 	return ds
 }
